@@ -184,18 +184,49 @@ Theorem C13_new_cert_after_renewal :
 Proof. split; [exact renewed_cert_is_cached|exact lookup_prefers_unexpired]. Qed.
 Print Assumptions C13_new_cert_after_renewal.
 
-(** ** an expired certificate is not served while its renewal can still succeed (partial: an
-    expired certificate is only ever handed back by a re-entry after the worker released, or as a
-    worker's own load result — never by the maintenance / serve-current paths; that the renewal
-    waited for has failed is a statement about the history, checked on the implementation by the
-    correspondence monitor, not proved here) *)
-Theorem C13_expired_not_served_partial : forall s t th a s' th' c,
-  thread_step s t th a = Some s' -> thr s' t = Some th' ->
+(** ** an expired certificate is not served while its renewal can still succeed.
+    A goroutine hands back an expired certificate c only
+    (a) on re-entry after a wait, and then the channel whose close woke it ([t_waited], a history
+        variable of the model) is closed: the attempt it waited for is over, its worker has released
+        (had that attempt succeeded, the reload step had put the new certificate into the cache and
+        taken the old one out, and the lookup prefers an unexpired certificate:
+        [C13_new_cert_after_renewal]); or
+    (b) as a worker, as the result of its own read of the bundle in storage (storage itself holds an
+        expired certificate: only by interference).
+    Never from the cache-hit / maintenance / serve-current paths of a first entry. *)
+Theorem C13_expired_served_only_after_the_awaited_attempt_is_over : forall s t th a s' th' c,
+  reachable s -> thr s t = Some th -> thread_step s t th a = Some s' -> thr s' t = Some th' ->
   t_pc th' = PRet (RCert c) -> expired c = true -> t_pc th <> PRet (RCert c) ->
-  t_pc th = PStart false \/ (exists ch, t_pc th = PObtUnblock ch (RCert c)) \/
+  (t_pc th = PStart false /\ exists ch, t_waited th = Some ch /\ closed s ch = true) \/
+  (exists ch, t_pc th = PObtUnblock ch (RCert c)) \/
   (exists ch c0 bg, t_pc th = PRenUnblock ch c0 (RCert c) bg).
-Proof. exact expired_returned_only_after_wait_partial. Qed.
-Print Assumptions C13_expired_not_served_partial.
+Proof. intros s t th a s' th' c R. exact (expired_returned_only_after_wait_over s t th a s' th' c R). Qed.
+Print Assumptions C13_expired_served_only_after_the_awaited_attempt_is_over.
+
+(** the history variable means what it says: it is only ever set to a closed channel, closed
+    channels stay closed, and a goroutine is at the re-entry point only after a wake-up *)
+Theorem C13_waited_channel_is_closed : forall s, reachable s ->
+  forall t th, thr s t = Some th ->
+  (forall ch, t_waited th = Some ch -> closed s ch = true) /\
+  (t_pc th = PStart false -> t_waited th <> None).
+Proof. exact reachable_winv. Qed.
+Print Assumptions C13_waited_channel_is_closed.
+
+(** the strict reading — "never while ANY renewal of the name can still succeed" — is refuted by a
+    witness: handshake 1 waits for handshake 0's renewal of the expired certificate, that renewal
+    fails, a later handshake 2 starts a new renewal and is at the issuer, handshake 1 re-enters
+    and is served the cached expired certificate (nil error) while 2's renewal can still succeed.
+    The implementation serves the expired certificate on re-entry after a failed renewal just the
+    same (corpus class expired-served-after-failed-renewal of the correspondence check; the
+    position of handshake 2 at that moment is finer than the harness's gates); recorded as an
+    observation in notes/C13.md, not patched. *)
+Theorem C13_expired_never_during_a_renewal_refuted :
+  exists s, reachable s /\ exists t1 t2 th1 th2 c ch st,
+    thr s t1 = Some th1 /\ t_pc th1 = PDone (RCert c) /\ expired c = true /\
+    thr s t2 = Some th2 /\ t_name th2 = t_name th1 /\ t2 <> t1 /\
+    t_pc th2 = PRenIssue ch c false st /\ omap s (t_name th1) = Some ch.
+Proof. exact expired_served_during_later_renewal. Qed.
+Print Assumptions C13_expired_never_during_a_renewal_refuted.
 
 (** the statement shapes of handshake.go that the LTS takes as atomic steps / literals are the
     ones in the source today (read by the translator on every run; a change breaks this proof) *)
